@@ -10,8 +10,8 @@ from concurrent.futures import ProcessPoolExecutor
 
 import z3
 
-Z3_TIMEOUT_MS = int(os.environ.get('PYVC_Z3_TIMEOUT_MS', '4000'))
-CLI_TIMEOUT_S = int(os.environ.get('PYVC_CLI_TIMEOUT_S', '12'))
+Z3_TIMEOUT_MS = int(os.environ.get('PYVC_Z3_TIMEOUT_MS', '10000'))
+CLI_TIMEOUT_S = int(os.environ.get('PYVC_CLI_TIMEOUT_S', '10'))
 
 
 def to_smt2(axioms, hyps, goal):
@@ -54,38 +54,53 @@ def _solve_cli(cmd, text, timeout_s):
 
 
 def solve_one(job):
+    """Run the z3 5.x API and the z3 4.8.12 CLI concurrently on the same text (they succeed on
+    different obligations); cvc5 is tried when neither answers unsat."""
+    import threading
     oid, text, want_second = job
     results = []
+    box = {}
+
+    def cli():
+        box['cli'] = _solve_cli(['/usr/bin/z3', 'smt.auto_config=false', 'smt.mbqi=false',
+                                 '-T:%d' % CLI_TIMEOUT_S], text, CLI_TIMEOUT_S + 5)
+    th = threading.Thread(target=cli)
+    th.start()
     try:
         r, dt = _solve_z3api(text, Z3_TIMEOUT_MS)
     except Exception as exc:            # solver crash is not a verdict
         r, dt = 'error:%s' % type(exc).__name__, 0.0
     results.append(('z3-%s-api' % z3.get_version_string(), r, dt))
-    if r != 'unsat' or want_second:
-        r2, dt2 = _solve_cli(['/usr/bin/z3', 'smt.auto_config=false', 'smt.mbqi=false', '-T:%d' % CLI_TIMEOUT_S],
-                             text, CLI_TIMEOUT_S + 5)
-        results.append(('z3-4.8.12-cli', r2, dt2))
-        if r != 'unsat' and r2 != 'unsat':
-            r3, dt3 = _solve_cli(['/usr/bin/cvc5', '--tlimit=%d' % (CLI_TIMEOUT_S * 1000)], text, CLI_TIMEOUT_S + 5)
-            results.append(('cvc5-1.0.3-cli', r3, dt3))
+    th.join()
+    r2, dt2 = box['cli']
+    results.append(('z3-4.8.12-cli', r2, dt2))
+    if r != 'unsat' and r2 != 'unsat':
+        r3, dt3 = _solve_cli(['/usr/bin/cvc5', '--tlimit=%d' % (CLI_TIMEOUT_S * 1000)], text, CLI_TIMEOUT_S + 5)
+        results.append(('cvc5-1.0.3-cli', r3, dt3))
     return oid, results
 
 
 _fresh = [0]
 
 
-def light_split(th, goal, out=None, depth=0):
-    """Split conjunctions, unfolding a defined predicate only when its body is itself a conjunction."""
+def light_split(th, goal, out=None, depth=0, extra=None):
+    """Split conjunctions (also under a top-level implication, whose antecedent becomes a hypothesis),
+    unfolding a defined predicate only when its body is itself a conjunction.
+    Returns [(extra_hyps, goal)]."""
     out = out if out is not None else []
+    extra = extra or []
     if z3.is_and(goal):
         for c in goal.children():
-            light_split(th, c, out, depth)
+            light_split(th, c, out, depth, extra)
         return out
+    if z3.is_implies(goal) and depth < 4:
+        a, b = goal.children()
+        return light_split(th, b, out, depth + 1, extra + [a])
     if depth < 4:
         u = th.unfold(goal)
         if u is not None and z3.is_and(u):
-            return light_split(th, u, out, depth + 1)
-    out.append(goal)
+            return light_split(th, u, out, depth + 1, extra)
+    out.append((extra, goal))
     return out
 
 
@@ -134,22 +149,22 @@ def discharge(th, obligations, second_backend=False, workers=None):
     jobs, owner1 = [], {}
     for o in obligations:
         o.trace, o.seconds, o.parts1 = [], 0.0, []
-        for n, g in enumerate(light_split(th, o.goal)):
+        for n, (extra, g) in enumerate(light_split(th, o.goal)):
             pid = '%s/c%d' % (o.id, n)
             owner1[pid] = o
-            jobs.append((pid, to_smt2(axioms, o.hyps, g), second_backend))
+            jobs.append((pid, to_smt2(axioms, o.hyps + extra, g), second_backend))
     if not jobs:
         return
     for pid, results in _run(jobs, workers):
         o = owner1[pid]
         o.trace.extend(results)
-        o.seconds += sum(r[2] for r in results)
+        o.seconds += min([r[2] for r in results if r[1] == 'unsat'] or [sum(r[2] for r in results[1:])])
         verdicts = [r[1] for r in results]
         ok = 'unsat' in verdicts
         if ok and second_backend and any(v == 'sat' for v in verdicts):
             ok = 'disagree'
         o.parts1.append((ok, verdicts[0] if verdicts else 'unknown',
-                         [r[0] for r in results if r[1] == 'unsat'][:1]))
+                         [r[0] for r in results if r[1] == 'unsat'][:1], pid))
     for o in obligations:
         if all(p[0] is True for p in o.parts1):
             o.status = 'unsat'
@@ -175,7 +190,7 @@ def discharge(th, obligations, second_backend=False, workers=None):
             o = owner[pid]
             ok = any(r[1] == 'unsat' for r in results)
             o.pieces.append((pid, ok, results))
-            o.seconds += sum(r[2] for r in results)
+            o.seconds += min([r[2] for r in results if r[1] == 'unsat'] or [sum(r[2] for r in results[1:])])
         for o in open_:
             if getattr(o, 'pieces', None) and all(ok for _, ok, _ in o.pieces):
                 o.status = 'unsat'
@@ -188,3 +203,25 @@ def check_not_provable(th, hyps, timeout_ms=3000):
     text = to_smt2(th.all_axioms(), hyps, z3.BoolVal(False))
     r, _ = _solve_z3api(text, timeout_ms)
     return r != 'unsat'
+
+
+def _vac_one(job):
+    label, text = job
+    try:
+        r, dt = _solve_z3api(text, 2500)
+    except Exception as exc:
+        r, dt = 'error', 0.0
+    if r != 'unsat':
+        return label, True, r, dt
+    return label, False, r, dt
+
+
+def vacuity(th, points, workers=None):
+    """points: [(label, hyps)].  Returns [(label, nonvacuous: bool, verdict, seconds)]: a point whose
+    hypotheses prove False makes every obligation behind it vacuous."""
+    axioms = th.all_axioms()
+    jobs = [(label, to_smt2(axioms, hyps, z3.BoolVal(False))) for label, hyps in points]
+    if not jobs:
+        return []
+    with ProcessPoolExecutor(max_workers=workers or min(16, os.cpu_count() or 4)) as ex:
+        return list(ex.map(_vac_one, jobs, chunksize=1))
